@@ -10,12 +10,14 @@ Definition pab : path := [1; 2].      (* /a/b *)
 Definition pd : path := [4].          (* /d *)
 Definition leaf (p : path) (v idx : N) : path * pval := (p, {| pv_path := p; pv_val := v; pv_del := false; pv_idx := idx |}).
 Definition tomb (p : path) (idx : N) : path * pval := (p, {| pv_path := p; pv_val := 0; pv_del := true; pv_idx := idx |}).
-Definition o1 : oracle := {| o_verdict := VAccept; o_code := 0; o_last := None; o_master := 1 |}.
+Definition o1 : oracle := {| o_verdict := VAccept; o_code := 0; o_last := None; o_master := 1; o_alloc := false |}.
 Definition R (i : N) : label := LRecTx i 99 o1.
 Definition healthy (init : vals) : list label :=
   [LCreateCfg init; LTarget true false; LRel 1 true true; LConn 1 true; LRecMaster 99 o1; LRecCfg 99 o1; LRecCfg 99 o1].
 (* a change needs four reconciles: commit PENDING -> IN_PROGRESS -> COMPLETE, apply PENDING -> IN_PROGRESS -> COMPLETE *)
 Definition full (i : N) : list label := [R i; R i; R i; R i].
+
+Definition o_dev_refuse : oracle := {| o_verdict := VAccept; o_code := 3; o_last := None; o_master := 1; o_alloc := false |}.
 
 (* F-20a: the first accepted change of a configuration created without values panics (nil map) *)
 Definition ls_nil : list label := healthy [] ++ [LAppend [leaf pa 1 1]; R 1; R 1].
@@ -40,7 +42,7 @@ Proof. vm_compute. reflexivity. Qed.
 
 (* F-20d: the store's loop variable: the entry written for /a/b holds the value of /d *)
 Definition pac : path := [1; 3].      (* /a/c *)
-Definition o_lv : oracle := {| o_verdict := VAccept; o_code := 0; o_last := Some (snd (leaf pac 1 1)); o_master := 1 |}.
+Definition o_lv : oracle := {| o_verdict := VAccept; o_code := 0; o_last := Some (snd (leaf pac 1 1)); o_master := 1; o_alloc := false |}.
 Definition ls_loopvar : list label :=
   healthy [leaf pd 0 0] ++ [LAppend [leaf pab 1 1; leaf pac 1 1]; R 1; R 1; R 1; LRecTx 1 99 o_lv].
 Lemma loop_variable_refutes_applied : consistency_applied_ok (run ls_loopvar) = false.
@@ -68,7 +70,7 @@ Proof.
 Qed.
 
 (* F-20f: change 1 committed and applied, change 2 rejected by the model plugin, rollback of 1 requested: stuck *)
-Definition o_rej : oracle := {| o_verdict := VReject; o_code := 0; o_last := None; o_master := 1 |}.
+Definition o_rej : oracle := {| o_verdict := VReject; o_code := 0; o_last := None; o_master := 1; o_alloc := false |}.
 Definition ls_behind : list label :=
   healthy [leaf pd 0 0] ++ [LAppend [leaf pa 1 1]] ++ full 1 ++ [LAppend [leaf pa 2 2]; R 2; LRecTx 2 99 o_rej; LRollback 1].
 Lemma behind_failed_stuck : forall o, fst (rec_tx o (run ls_behind) 1) = [] /\ fst (rec_tx o (run ls_behind) 2) = [].
@@ -80,6 +82,14 @@ Proof. vm_compute. reflexivity. Qed.
 Definition ls_tomb : list label :=
   healthy [leaf pab 0 0] ++ [LAppend [tomb pa 1]] ++ full 1 ++ [LAppend [leaf pab 2 2]] ++ full 2.
 Lemma tombstone_refutes_applied : consistency_applied_ok (run ls_tomb) = false.
+Proof. vm_compute. reflexivity. Qed.
+
+(* F-20g: the device refuses change 1 (/a/b); change 2 (/d) is aborted; rolling 2 back sets Applied.Revision to 1 although
+   change 1 never reached the applied values or the device *)
+Definition ls_unapplied : list label :=
+  healthy [leaf pd 0 0] ++ [LAppend [leaf pab 1 1]; R 1; R 1; R 1; LRecTx 1 99 o_dev_refuse;
+                            LAppend [leaf [26] 2 2]; R 2; R 2; R 2; LRollback 2; R 2; R 2; R 2; R 2].
+Lemma unapplied_refutes_applied : consistency_applied_ok (run ls_unapplied) = false.
 Proof. vm_compute. reflexivity. Qed.
 
 (* a non-trivial history inside every guard: two changes to different values of a path applied one after the other,
@@ -97,7 +107,7 @@ Proof. vm_compute. reflexivity. Qed.
    append / rollback of the committed revision / reconcile of transaction 1..2 (complete, stopped after the first
    store write, plugin rejects, device refuses) keeps Order, commit-before-apply, the blocking rule and both sides
    of Consistency, without a panic. *)
-Definition o_dev : oracle := {| o_verdict := VAccept; o_code := 3; o_last := None; o_master := 1 |}.
+Definition o_dev : oracle := {| o_verdict := VAccept; o_code := 3; o_last := None; o_master := 1; o_alloc := false |}.
 Definition alphabet (w : world) : list label :=
   let n := N.of_nat (length (w_txs w)) in
   (if n <? 2 then [LAppend [leaf pa (n + 1) (n + 1)]] else []) ++
